@@ -94,6 +94,10 @@ def run(ctx, rep) -> None:
 
     rep.rule("C08.6", "the pure utilities this property is built on compute what they document (concrete interpretation on small cases)")
     rep.attempt("utility_semantics", utility_semantics, ctx, rep, "C08.6", ("get_dtype_size", "compress_list", "generate_pairwise_indices"))
+    from .common import cached_functions_are_functions_of_their_key, late_binding_closures
+
+    rep.attempt("cached_functions", cached_functions_are_functions_of_their_key, ctx, rep, "C08.6")
+    rep.attempt("late_binding_closures", late_binding_closures, ctx, rep, "C08.6")
     rep.rule("C08.5", "communication dtype table, allocation forwarding and mesh-dimension roles of the HybridShard distributor")
     rep.attempt("comm_dtype_table", comm_dtype_table, ctx, rep, "C08.5", HYB)
     rep.attempt("allocation_forwards_request", allocation_forwards_request, ctx, rep, "C08.5", HYB)
